@@ -20,7 +20,6 @@ package generic
 
 import   "fmt"
 import   "math"
-import   "reflect"
 
 import . "github.com/pbenner/autodiff"
 
@@ -98,28 +97,28 @@ func (node HmmNode) ExportConfig() interface{} {
 }
 
 func (node *HmmNode) ImportConfig(v interface{}) bool {
-  switch reflect.TypeOf(v).Kind() {
-  case reflect.Slice:
-    s := reflect.ValueOf(v)
-    if s.Len() == 2 &&
-      // parse leaf
-      (reflect.TypeOf(s.Index(0).Elem().Interface()).Kind() == reflect.Float64) &&
-      (reflect.TypeOf(s.Index(1).Elem().Interface()).Kind() == reflect.Float64) {
-      node.States[0] = int(reflect.ValueOf(s.Index(0).Elem().Interface()).Float())
-      node.States[1] = int(reflect.ValueOf(s.Index(1).Elem().Interface()).Float())
-    } else {
-      // parse internal node
-      for i := 0; i < s.Len(); i++ {
-        child := HmmNode{}
-        if ok := child.ImportConfig(s.Index(i).Elem().Interface()); !ok {
-          return false
-        }
-        node.Children = append(node.Children, child)
-      }
-    }
-    return true
+  s, ok := v.([]interface{}); if !ok {
+    return false
   }
-  return false
+  if len(s) == 2 {
+    // parse leaf
+    from, ok1 := s[0].(float64)
+    to  , ok2 := s[1].(float64)
+    if ok1 && ok2 {
+      node.States[0] = int(from)
+      node.States[1] = int(to)
+      return true
+    }
+  }
+  // parse internal node
+  for i := 0; i < len(s); i++ {
+    child := HmmNode{}
+    if ok := child.ImportConfig(s[i]); !ok {
+      return false
+    }
+    node.Children = append(node.Children, child)
+  }
+  return true
 }
 
 /* -------------------------------------------------------------------------- */
